@@ -102,6 +102,17 @@ Theorem C03_handler_trace_only_auth : forall cfg c m tbl sc rq e,
   In e (fst (handle cfg c m tbl sc rq)) -> is_auth e = true.
 Proof. exact handle_trace_only_auth. Qed.
 
+(* the gate comes first: a refused request is answered without looking at the request - malformed
+   parameters or a broken body do not change the answer (nor turn it into a 422) *)
+Theorem C03_refusal_independent_of_request : forall cfg c m tbl sc r1 r2 tr r,
+  handle cfg c m tbl sc r1 = (tr, Refused r) -> handle cfg c m tbl sc r2 = (tr, Refused r).
+Proof. exact handle_refusal_independent_of_request. Qed.
+
+Example C03_refused_whatever_the_request :
+  handle demo_cfg demo_ctrl demo_method [(KAll, mkRefusal 403 (s "no"))] (mkOp false None) (demo_rq "5" "7") =
+  handle demo_cfg demo_ctrl demo_method [(KAll, mkRefusal 403 (s "no"))] (mkOp false None) (demo_rq "not-a-number" "-1").
+Proof. exact demo_refused_whatever_the_request. Qed.
+
 Example C03_handler_nonvacuous :
   snd (handle demo_cfg demo_ctrl demo_method [(KAll, mkRefusal 403 (s "no"))] (mkOp false None) (demo_rq "5" "7"))
   = Refused (mkRefusal 403 (s "no")).
@@ -120,3 +131,5 @@ Print Assumptions C03_handler_invoked_approved.
 Print Assumptions C03_handler_refused.
 Print Assumptions C03_handler_trace_only_auth.
 Print Assumptions C03_handler_nonvacuous.
+Print Assumptions C03_refusal_independent_of_request.
+Print Assumptions C03_refused_whatever_the_request.
